@@ -207,9 +207,7 @@ def render_stmt(r: R, s, ind, ctx, scope):
             r.emit(head + " ...", ind)
         last = len(r.lines)
         kind = "attribute" if v == "property" else "function"
-        lineno = first
-        if v == "property":
-            lineno = first + 1  # Griffe documents a property attribute at its def line
+        lineno = first  # (a property, like any other decorated definition, starts at its first decorator: slicing by the span returns the definition)
         ev.append({"op": "bind", "name": n, "kind": kind, "lineno": lineno, "endlineno": last, "cond": None, "guard": ctx["guard"], "labels": labels, "doc": doc,
                    "src_first": first, "is_def": True})
         ev.extend(init_events)
